@@ -64,6 +64,177 @@ def ref_crc32(b):
                 r ^= 0xEDB88320
     return r ^ 0xFFFFFFFF
 
+
+# ------------------------------------------------------------------------------ directed checksum cases
+def _be_words(b):
+    b = bytes(b)
+    if len(b) % 2:
+        b += b"\0"
+    return [(b[i] << 8) | b[i + 1] for i in range(0, len(b), 2)]
+
+def _swap16(v):
+    return ((v & 0xFF) << 8) | (v >> 8)
+
+DIRECTED_KINDS = ["cks0000", "fold_ffff", "fold_10000", "fold_10001", "fold_max", "run_10000", "run_ffff", "run_fffe"]
+
+def solve_word(msg, off, kind):
+    """value for the free big-endian 16-bit field at even offset `off` of `msg` (currently zero there) such that
+         cks0000     the RFC 1071 checksum of the message is 0x0000 (the one's-complement sum is 0xFFFF)
+         fold_X      the code's little-endian word sum s has (s >> 16) + (s & 0xFFFF) == X (0xFFFF, 0x10000, 0x10001,
+                     or the largest reachable value): the first fold itself overflows 16 bits
+         run_X       the running big-endian end-around-carry sum, taken word by word, is exactly X after adding the
+                     field (0x10000 -> wraps to 1; 0xFFFF; 0xFFFE)
+       Returns None when no 16-bit value does it."""
+    ws = _be_words(msg)
+    k = off // 2
+    if kind == "cks0000":
+        t = sum(ws) - ws[k]
+        v = (-t) % 65535
+        if v == 0 and t == 0:
+            v = 65535
+        return v
+    if kind.startswith("fold_"):
+        t = sum(_swap16(w) for i, w in enumerate(ws) if i != k)
+        targets = {"fold_ffff": [0xFFFF], "fold_10000": [0x10000], "fold_10001": [0x10001],
+                   "fold_max": list(range(0x1000F, 0xFFFF, -1))}[kind]
+        for target in targets:
+            for hi in ((t >> 16), (t >> 16) + 1):
+                lo = target - hi
+                if 0 <= lo <= 0xFFFF:
+                    v = ((hi << 16) | lo) - t
+                    if 0 <= v <= 0xFFFF:
+                        return _swap16(v)
+        return None
+    if kind.startswith("run_"):
+        acc = 0
+        for w in ws[:k]:
+            acc += w
+            if acc > 0xFFFF:
+                acc = (acc & 0xFFFF) + 1
+        v = {"run_10000": 0x10000, "run_ffff": 0xFFFF, "run_fffe": 0xFFFE}[kind] - acc
+        return v if 0 <= v <= 0xFFFF else None
+    raise ValueError(kind)
+
+def directed_ip_fields(rng, kind, plen=None):
+    """IPv4 field values (ints / dotted quads) with the identification solved for `kind`; None if unsolvable"""
+    f = {"srcip": addr(rng)[1:], "dstip": addr(rng)[1:], "flags": rng.boundary(3), "fragment_offset": 8 * rng.boundary(13),
+         "protocol": rng.boundary(8), "dscp": rng.boundary(8), "id": 0, "ttl": rng.boundary(8)}
+    if kind.startswith("fold_") or rng.random() < 0.3:          # large words make the little-endian sum exceed 16 bits
+        f["srcip"], f["dstip"] = quad(rng.getrandbits(32) | 0x80808080), quad(rng.getrandbits(32) | 0x80808080)
+    if kind.startswith("run_"):                                   # the running sum before the id is word0 + total length
+        f["dscp"] = rng.choice([0xFF, 0xF0, rng.boundary(8)])
+    n = rng.choice([0, 1, 8, 100, 1480]) if plen is None else plen
+    if kind.startswith("run_") and rng.random() < 0.2:
+        n = rng.choice([0xBA00 - 20 + rng.randrange(0, 200), 65515])             # 0x45xx + total length wraps / nearly wraps
+    fu = f["fragment_offset"] // 8
+    h = bytes([0x45, f["dscp"]]) + (20 + n).to_bytes(2, "big") + b"\0\0" + bytes([(f["flags"] << 5) | (fu >> 8), fu & 0xFF,
+        f["ttl"], f["protocol"], 0, 0]) + ipint(f["srcip"]).to_bytes(4, "big") + ipint(f["dstip"]).to_bytes(4, "big")
+    v = solve_word(h, 4, kind)
+    if v is None:
+        return None, n
+    f["id"] = v
+    return f, n
+
+def directed_wire_header(rng, kind, n):
+    """a 20-byte option-less header as a conforming sender would emit it, identification solved for `kind`"""
+    for _ in range(20):
+        h = bytearray(rng.bytes_(20))
+        h[0] = 0x45
+        h[2:4] = (20 + n).to_bytes(2, "big")
+        h[4:6] = b"\0\0"
+        h[10:12] = b"\0\0"
+        if kind.startswith("fold_"):
+            for i in (12, 14, 16, 18):
+                h[i] |= 0x80
+                h[i + 1] |= 0x80
+        v = solve_word(bytes(h), 4, kind)
+        if v is None:
+            continue
+        h[4:6] = v.to_bytes(2, "big")
+        h[10:12] = ref_rfc1071(bytes(h)).to_bytes(2, "big")
+        return bytes(h)
+    return wire_header(rng, n)
+
+def directed_icmp(rng, kind):
+    """ICMP fields + payload with request_id solved; kind 'zero' is the all-zero message (checksum 0xFFFF)"""
+    if kind == "zero":
+        return {"type": 0, "code": 0, "request_id": 0, "request_sequence": 0}, bytes(rng.choice([0, 1, 2, 7, 64]))
+    n = rng.choice([0, 1, 2, 3, 8, 33, 64, 1473])
+    pl = bytes(rng.choice([0xFF, 0x80, rng.getrandbits(8)]) | (0x80 if kind.startswith("fold_") else 0) for _ in range(n))
+    f = {"type": rng.boundary(8), "code": rng.boundary(8), "request_id": 0, "request_sequence": rng.boundary(16)}
+    if kind.startswith("run_"):
+        f["type"], f["code"] = rng.choice([0xFF, 0xFE, 0x80]), rng.boundary(8)
+    msg = bytes([f["type"], f["code"], 0, 0, 0, 0]) + f["request_sequence"].to_bytes(2, "big") + pl
+    v = solve_word(msg, 4, kind)
+    if v is None:
+        return None, pl
+    f["request_id"] = v
+    return f, pl
+
+def directed_igmp_groups(rng, kind):
+    """group list whose last group's low (or high) word is solved for `kind`"""
+    cnt = rng.choice([1, 1, 2, 3, 5])
+    groups = [rng.getrandbits(32) | (0x80808080 if kind.startswith("fold_") else 0) for _ in range(cnt)]
+    mode = 4 if cnt == 1 else 2
+    msg = bytes([0x22, 0, 0, 0, 0, 0]) + cnt.to_bytes(2, "big")
+    for g in groups:
+        msg += bytes([mode, 0, 0, 0]) + g.to_bytes(4, "big")
+    which = rng.choice([2, 4]) if not kind.startswith("run_") else 4      # high word is at len-4, low word at len-2
+    off = len(msg) - which
+    msg = msg[:off] + b"\0\0" + msg[off + 2:]
+    v = solve_word(msg, off, kind)
+    if v is None:
+        return None
+    msg = msg[:off] + v.to_bytes(2, "big") + msg[off + 2:]
+    return [quad(int.from_bytes(msg[8 + 8 * i + 4:8 + 8 * i + 8], "big")) for i in range(cnt)]
+
+def directed_cases(ctx, per_kind):
+    """(what, args…) tuples shared by the correspondence stream and the oracles"""
+    rng = ctx.rng
+    out = []
+    for kind in DIRECTED_KINDS:
+        for _ in range(per_kind):
+            f, n = directed_ip_fields(rng, kind)
+            if f is not None:
+                out.append(("ip", kind, f, n))
+            out.append(("wire", kind, directed_wire_header(rng, kind, rng.choice([0, 1, 8, 26, 100])), None))
+            f, pl = directed_icmp(rng, kind)
+            if f is not None:
+                out.append(("icmp", kind, f, pl))
+            g = directed_igmp_groups(rng, kind)
+            if g is not None:
+                out.append(("igmp", kind, g, None))
+    for _ in range(per_kind):
+        f, pl = directed_icmp(rng, "zero")
+        out.append(("icmp", "zero", f, pl))
+    return out
+
+def directed_lines(ctx, per_kind):
+    rng = ctx.rng
+    lines = []
+    for what, kind, a, b in directed_cases(ctx, per_kind):
+        if what == "ip":
+            f = {k: ("q" + v if k in ("srcip", "dstip") else str(v)) for k, v in a.items()}
+            f["payload"] = hexb(rng.bytes_(b))
+            l = gen.H("IP", gen.sets(f) + ["pack", "obs"])
+            lines.append(l)
+            pb = _impl_bytes(l)
+            if pb is not None:
+                lines.append(gen.F("ip_calc_checksum", hexb(pb[:10] + b"\0\0" + pb[12:20])))
+                lines.append(gen.F("ip_calc_checksum", hexb(pb[:20])))
+                lines.append(gen.H("IP", ["unpack " + hexb(pb + rng.bytes_(rng.choice([0, 3, 46]))), "obs", "pack"]))
+        elif what == "wire":
+            n = int.from_bytes(a[2:4], "big") - 20
+            lines.append(gen.H("IP", ["unpack " + hexb(a + rng.bytes_(n) + rng.bytes_(rng.choice([0, 0, 2, 46]))), "obs", "pack", "obs"]))
+            lines.append(gen.F("ip_calc_checksum", hexb(a)))
+        elif what == "icmp":
+            f = {k: str(v) for k, v in a.items()}
+            f["payload"] = hexb(b)
+            lines.append(gen.H("ICMP", gen.sets(f) + ["pack", "obs"]))
+        elif what == "igmp":
+            lines.append(gen.F("igmp.join_groups", "[" + ";".join("q" + g for g in a) + "]"))
+    return lines
+
 # =================================================================================== generators
 PAYLOAD_SMALL = [0, 1, 2, 3, 4, 5, 8, 17, 46, 64]
 
@@ -339,8 +510,46 @@ def stack_lines(ctx):
                     lines.append(gen.H("UDP", ["unpack " + hexb(ub), "obs", "pack"]))
     return lines
 
+STACK_TOP = [65480, 65499, 65506, 65507]
+
+def stack_file_cases(ctx):
+    """two-record pcap files whose records carry UDP payloads at the top of the range, every nesting, pad 0..46"""
+    rng = ctx.rng
+    cases = []
+    for vlan in (False, True):
+        for fcs in (False, True):
+            tops = STACK_TOP if ctx.tier == "thorough" else [rng.choice(STACK_TOP[:2]), 65507]
+            for n in tops:
+                recs = []
+                for n2 in (n, rng.choice(STACK_TOP + [0, 1, 18, rng.randrange(65480, 65508)])):
+                    recs.append({"x": n2, "pad": rng.choice([0, 1, 17, 46, rng.randrange(0, 47)]), "vlan": vlan, "fcs": fcs,
+                                 "seed": rng.getrandbits(32)})
+                cases.append(recs)
+    return cases
+
+def stack_file_lines(ctx):
+    rng = ctx.rng
+    lines = []
+    for recs in stack_file_cases(ctx):
+        ops = ["call open qw"]
+        per = []
+        for r in recs:
+            r2 = core.Rng(r["seed"])
+            x, padb = r2.bytes_(r["x"]), r2.bytes_(r["pad"])
+            ub, ib, eb, rb = build_stack(r2, x, r["vlan"], r["fcs"], padb)
+            ops.append("call write PcapRecord{sec=%d,usec=%d,payload=%s}" % (int.from_bytes(rb[0:4], "little"), int.from_bytes(rb[4:8], "little"), hexb(eb)))
+            per.append((ub, ib, eb, padb, r["fcs"]))
+        ops += ["call close", "call open qr", "call readall", "call getitem 1", "call getitem 0", "call close"]
+        lines.append(gen.H("PcapFile", ops))
+        for ub, ib, eb, padb, fcs in per:
+            lines.append(gen.H("Ethernet", ["unpack %s %s" % (hexb(eb), fcs), "obs"]))
+            lines.append(gen.H("IP", ["unpack " + hexb(ib + padb), "obs", "pack"]))
+            lines.append(gen.H("UDP", ["unpack " + hexb(ub), "obs", "pack"]))
+    return lines
+
 def corr_C02(ctx):
-    return eth_lines(ctx) + ip_lines(ctx) + udp_lines(ctx) + arp_lines(ctx) + rec_lines(ctx) + func_lines(ctx) + stack_lines(ctx)
+    return (eth_lines(ctx) + ip_lines(ctx) + udp_lines(ctx) + arp_lines(ctx) + rec_lines(ctx) + func_lines(ctx) +
+            stack_lines(ctx) + stack_file_lines(ctx) + directed_lines(ctx, ctx.scale(15, 100)))
 
 # ---- oracles
 def check_eth_layout(args):
@@ -488,6 +697,47 @@ def check_stack(args):
         return "stack decode reports wrong layer fields"
     return None
 
+def check_stack_file(args):
+    """records holding pcap-record/Ethernet/IPv4/UDP stacks are written to a real pcap file (two per file, so that a
+       mis-framed first record shows in the second), read back, decoded layer by layer: the innermost bytes return"""
+    import AcraNetwork.SimpleEthernet as se, AcraNetwork.Pcap as pcap
+    d = _tmp()
+    try:
+        fn = os.path.join(d, "s.pcap")
+        f = pcap.Pcap(fn, mode="w")
+        want = []
+        for r in args["records"]:
+            r2 = core.Rng(r["seed"])
+            x, padb = r2.bytes_(r["x"]), r2.bytes_(r["pad"])
+            ub, ib, eb, rb = build_stack(r2, x, r["vlan"], r["fcs"], padb)
+            rec = pcap.PcapRecord()
+            rec.sec, rec.usec = int.from_bytes(rb[0:4], "little"), int.from_bytes(rb[4:8], "little")
+            rec.payload = eb
+            f.write(rec)
+            want.append((x, r))
+        f.close()
+        g = pcap.Pcap(fn)
+        got = list(g)
+        g.close()
+        if len(got) != len(want):
+            return "pcap file with %d stacked records reads back %d records" % (len(want), len(got))
+        for k, (rec, (x, r)) in enumerate(zip(got, want)):
+            e = se.Ethernet()
+            e.unpack(rec.payload, r["fcs"])
+            i = se.IP()
+            i.unpack(e.payload)
+            u = se.UDP()
+            u.unpack(i.payload)
+            if u.payload != x:
+                return "record %d (vlan=%s, fcs=%s, %d-byte UDP payload, %d-byte pad) read from a pcap file: innermost payload comes back as %d bytes, first difference at %d" % (
+                    k, r["vlan"], r["fcs"], len(x), r["pad"], len(u.payload),
+                    next((j for j, (a, b) in enumerate(zip(u.payload, x)) if a != b), min(len(x), len(u.payload))))
+            if u.len != (8 + len(x)) % 65536 or i.len != 28 + len(x):
+                return "record %d: UDP/IP length fields %d/%d for a %d-byte payload" % (k, u.len, i.len, len(x))
+    finally:
+        shutil.rmtree(d, True)
+    return None
+
 def oracles_C02(ctx, hints):
     rng = ctx.rng
     fails, n = [], 0
@@ -538,6 +788,20 @@ def oracles_C02(ctx, hints):
     for j in range(ctx.scale(100, 3000) * k):
         args = {"sec": rng.boundary(32), "usec": rng.boundary(32), "payload": rng.bytes_(rng.choice([0, 1, 5, 60, 1514])).hex()}
         if run("rec_layout", check_rec_layout, args, {"class": "PcapRecord", "check": "layout"}):
+            break
+    for what, kind, a, b in directed_cases(ctx, ctx.scale(15, 150) * k):
+        if what == "ip":
+            args = {"fields": a, "payload": rng.bytes_(b).hex(), "pad": rng.bytes_(rng.choice([0, 0, 1, 46])).hex()}
+            if run("ip_layout", check_ip_layout, args, {"class": "IP", "check": "layout", "directed": kind}):
+                break
+        elif what == "wire":
+            pln = int.from_bytes(a[2:4], "big") - 20
+            args = {"header": a.hex(), "payload": rng.bytes_(pln).hex(), "pad": rng.bytes_(rng.choice([0, 0, 2, 46])).hex()}
+            if run("ip_reencode", check_ip_reencode, args, {"class": "IP", "check": "reencode", "directed": kind}):
+                break
+    for recs in stack_file_cases(ctx):
+        if run("stack_file", check_stack_file, {"records": recs}, {"class": "stack", "check": "transparent_file",
+                                                                   "vlan": recs[0]["vlan"], "fcs": recs[0]["fcs"]}):
             break
     xs = STACK_X + [65507] + [rng.randrange(0, 65507) for _ in range(ctx.scale(1, 30))]
     done = False
@@ -598,6 +862,7 @@ def corr_C07(ctx):
     for n in list(range(0, 8)) + [40]:
         for _ in range(ctx.scale(3, 60)):
             lines.append(gen.F("igmp.join_groups", "[" + ";".join(addr(rng) for _ in range(n)) + "]"))
+    lines += directed_lines(ctx, ctx.scale(15, 150))
     lines.append(gen.F("igmp.join_groups", "[q1.2.3.4;q]"))
     lines.append(gen.F("igmp.join_groups", "[q255.255.255.255;q255.255.255.255;q255.255.255.255]"))
     lines += icmp_lines(ctx)
@@ -633,6 +898,21 @@ def check_ipv4_checksum(args):
         return "IPv4 header checksum bytes %s; RFC 1071 over the emitted header gives %04x" % (b[10:12].hex(), want)
     if se.ip_calc_checksum(b[:20]) != 0:
         return "verifying the emitted IPv4 header does not give 0"
+    return None
+
+def check_wire_verifies(args):
+    """ip_calc_checksum over a header that carries its RFC 1071 checksum gives 0, and over the header with the
+       field zeroed gives the field (as the native-order value the code stores)"""
+    import AcraNetwork.SimpleEthernet as se
+    h = bytes.fromhex(args["header"])
+    if se.ip_calc_checksum(h) != 0:
+        return "ip_calc_checksum of the valid header %s is %04x, not 0" % (h.hex(), se.ip_calc_checksum(h))
+    z = h[:10] + b"\0\0" + h[12:]
+    want = _spec_int(gen.F("spec.rfc1071", hexb(z)))
+    if want != ref_rfc1071(z) or want.to_bytes(2, "big") != h[10:12]:
+        return "internal: references disagree on %s" % z.hex()
+    if se.ip_calc_checksum(z).to_bytes(2, "little") != h[10:12]:
+        return "ip_calc_checksum(%s) stored natively is %s; RFC 1071 gives %s" % (z.hex(), se.ip_calc_checksum(z).to_bytes(2, "little").hex(), h[10:12].hex())
     return None
 
 def check_icmp_checksum(args):
@@ -742,6 +1022,21 @@ def oracles_C07(ctx, hints):
         if run("igmp_join", check_igmp_join, {"groups": groups}, {"class": "IGMPv3", "check": "join_checksum"}):
             break
     run("igmp_query", check_igmp_query, {}, {"class": "IGMPv3", "check": "query_checksum"})
+    stop = set()
+    for what, kind, a, b in directed_cases(ctx, ctx.scale(15, 150) * k):
+        if what in stop:
+            continue
+        if what == "ip":
+            bad = run("ipv4_checksum", check_ipv4_checksum, {"fields": a, "payload": rng.bytes_(b).hex()},
+                      {"class": "IP", "check": "checksum", "directed": kind})
+        elif what == "wire":
+            bad = run("wire_verifies", check_wire_verifies, {"header": a.hex()}, {"class": "ip_calc_checksum", "check": "verify", "directed": kind})
+        elif what == "icmp":
+            bad = run("icmp_checksum", check_icmp_checksum, {"fields": a, "payload": b.hex()}, {"class": "ICMP", "check": "checksum", "directed": kind})
+        else:
+            bad = run("igmp_join", check_igmp_join, {"groups": a}, {"class": "IGMPv3", "check": "join_checksum", "directed": kind})
+        if bad:
+            stop.add(what)
     for j in range(ctx.scale(12, 200) * k):
         vlan = bool(j % 2)
         ty = rng.boundary(16)
@@ -800,14 +1095,42 @@ def pcap_soup_history(rng, length):
             ops.append(rng.choice(SOUP))
     return ops + ["obs"]
 
-def pcap_truncation_lines(ctx, rng, max_file):
+EMPTY_SHAPES = [[0], [0, 0], [5, 0], [0, 5], [0, 5, 0], [3, 0, 0, 7, 0], [16, 0], [0, 16, 0, 1]]
+
+def pcap_zero_session_history(rng):
+    """a first session that writes no record (open "w", close), then append sessions (some empty too) writing
+       records whose payload may be empty — in particular the last one; then every index including the last"""
+    ops = ["call open qw", "call close", "obs"]
+    n = 0
+    for _ in range(rng.randrange(1, 4)):
+        ops.append("call open qa")
+        for _ in range(rng.choice([0, 1, 1, 2])):
+            ln = rng.choice([0, 0, 1, 5])
+            ops.append("call write PcapRecord{sec=%d,usec=%d,payload=%s}" % (rng.boundary(32), rng.boundary(32), hexb(rng.bytes_(ln))))
+            n += 1
+        ops.append("call close")
+    if rng.random() < 0.5:
+        ops += ["call open qa", "call write PcapRecord{sec=%d,usec=0,payload=x}" % rng.boundary(32), "call close"]
+        n += 1
+    ops += ["obs", "call open qr", "call readall"]
+    for i in range(0, n + 1):
+        ops.append("call getitem %d" % i)
+    ops += ["call getitem %d" % (n - 1), "call next", "obs"]
+    return ops
+
+def pcap_truncation_lines(ctx, rng, max_file, shape=None):
     """one file, every truncation offset"""
     lines = []
     recs = []
     size = 24
     while True:
-        n = rng.choice([0, 1, 3, 16, 20, rng.randrange(0, 40)])
-        if size + 16 + n > max_file:
+        if shape is not None:
+            if len(recs) == len(shape):
+                break
+            n = shape[len(recs)]
+        else:
+            n = rng.choice([0, 1, 3, 16, 20, rng.randrange(0, 40)])
+        if shape is None and size + 16 + n > max_file:
             break
         recs.append("PcapRecord{sec=%d,usec=%d,payload=%s}" % (rng.boundary(32), rng.boundary(32), hexb(rng.bytes_(n))))
         size += 16 + n
@@ -839,8 +1162,12 @@ def corr_C05(ctx):
         lines.append(gen.H("PcapFile", pcap_session_history(rng)))
     for _ in range(ctx.scale(150, 3000)):
         lines.append(gen.H("PcapFile", pcap_soup_history(rng, rng.randrange(1, 14))))
+    for _ in range(ctx.scale(40, 600)):
+        lines.append(gen.H("PcapFile", pcap_zero_session_history(rng)))
     for _ in range(ctx.scale(2, 12)):
         lines += pcap_truncation_lines(ctx, rng, ctx.scale(200, 400))
+    for shape in EMPTY_SHAPES:                         # empty payloads: last record, and directly before the cut
+        lines += pcap_truncation_lines(ctx, rng, 0, shape)
     for n in ([1500, 65535] if ctx.tier == "thorough" else [1500]):
         lines.append(gen.H("PcapFile", ["call open qw", "call write PcapRecord{sec=1,usec=2,payload=%s}" % hexb(rng.bytes_(n)),
                                         "call close", "call open qr", "call readall", "obs"]))
@@ -956,8 +1283,29 @@ def oracles_C05(ctx, hints):
         if w:
             fails.append(Failure("pcap_sessions", args, w, {"class": "Pcap", "check": "write_read"}))
             break
-    for j in range(ctx.scale(6, 60) * k):
-        recs = [[rng.boundary(32), rng.boundary(32), rng.bytes_(rng.choice([0, 1, 5, 16, 30])).hex()] for _ in range(rng.randrange(0, 6))]
+    for j in range(ctx.scale(40, 600) * k):            # first session writes nothing; empty payloads, also last
+        cnt = rng.randrange(0, 5)
+        recs = [[rng.boundary(32), rng.boundary(32), rng.bytes_(rng.choice([0, 0, 1, 5])).hex()] for _ in range(cnt)]
+        if cnt and j % 2:
+            recs[-1][2] = ""
+        splits = [0] + [0] * rng.randrange(0, 2)
+        left = cnt
+        while left:
+            c = rng.randrange(0, left + 1)
+            splits.append(c)
+            left -= c
+        args = {"records": recs, "splits": splits}
+        n += 1
+        w = check_pcap_sessions(args)
+        if w:
+            fails.append(Failure("pcap_sessions", args, w, {"class": "Pcap", "check": "write_read", "directed": "zero_session"}))
+            break
+    shapes = list(EMPTY_SHAPES)
+    for j in range(ctx.scale(6, 60) * k + len(shapes)):
+        if j < len(shapes):
+            recs = [[rng.boundary(32), rng.boundary(32), rng.bytes_(ln).hex()] for ln in shapes[j]]
+        else:
+            recs = [[rng.boundary(32), rng.boundary(32), rng.bytes_(rng.choice([0, 1, 5, 16, 30])).hex()] for _ in range(rng.randrange(0, 6))]
         size = 24 + sum(16 + len(r[2]) // 2 for r in recs)
         bad = False
         for t in range(24, size + 1):
@@ -1051,7 +1399,7 @@ def rand_cuts(rng, total, n):
 def corr_C16(ctx):
     rng = ctx.rng
     lines = []
-    for n in range(0, ctx.scale(6, 7)):
+    for n in range(0, 7):
         total = 8 * n + rng.randrange(0, 30) + 8
         x = rng.bytes_(total)
         hdr = {"srcip": addr(rng), "dstip": addr(rng), "protocol": 17, "dscp": rng.boundary(8), "id": rng.boundary(16), "ttl": rng.boundary(8)}
@@ -1130,7 +1478,7 @@ def oracles_C16(ctx, hints):
     fails, n = [], 0
     k = 4 if getattr(ctx, "search_mode", False) else 1
     bad = False
-    for cnt in range(1, ctx.scale(6, 7)):
+    for cnt in range(1, 7):
         if bad:
             break
         total = 8 * cnt + rng.randrange(0, 40)
@@ -1237,7 +1585,7 @@ ORACLES = {
     "eth_layout": check_eth_layout, "ip_layout": check_ip_layout, "ip_reencode": check_ip_reencode,
     "udp_layout": check_udp_layout, "arp_layout": check_arp_layout, "rec_layout": check_rec_layout, "stack": check_stack,
     "ipv4_checksum": check_ipv4_checksum, "icmp_checksum": check_icmp_checksum, "igmp_join": check_igmp_join,
-    "igmp_query": check_igmp_query, "eth_fcs": check_eth_fcs,
+    "igmp_query": check_igmp_query, "eth_fcs": check_eth_fcs, "wire_verifies": check_wire_verifies, "stack_file": check_stack_file,
     "pcap_sessions": check_pcap_sessions, "pcap_truncation": check_pcap_truncation, "pcap_iter_total": check_pcap_iter_total,
     "reassembly": check_reassembly, "reassembly_refuses": check_reassembly_refuses,
     "short_exact": check_short_exact,
